@@ -43,6 +43,30 @@ theorem selectTable_spec (ok : ClausesOk) (t : List Rec) (q : Query) (ht : ∀ r
   intro r hr
   exact rowMatches_spec ok q r (ht r hr) hq
 
+/-- (audit) outside the "both bounds + `allow_partial`" mode no side condition is needed -/
+theorem windowConds_spec_nonpartial (ok : ClausesOk) (q : Query) (r : Rec)
+    (h : q.allowPartial = false ∨ q.start = none ∨ q.stop = none) :
+    (windowConds q).all (fun c => c r) = windowMatch q r := by
+  unfold windowConds windowMatch
+  cases hs : q.start <;> cases he : q.stop <;> simp only [hs, he] at h ⊢
+  · simp
+  · simp only [List.all_cons, List.all_nil, Bool.and_true]
+    rw [Bool.eq_iff_iff, ok.stopOnly]; simp
+  · simp only [List.all_cons, List.all_nil, Bool.and_true]
+    rw [Bool.eq_iff_iff, ok.startOnly]; simp
+  · have hp : q.allowPartial = false := by simpa using h
+    simp only [List.all_cons, List.all_nil, Bool.and_true, hp, Bool.false_eq_true, if_false]
+    rw [Bool.eq_iff_iff, ok.within]; simp
+
+theorem selectTable_nonpartial (ok : ClausesOk) (t : List Rec) (q : Query)
+    (h : q.allowPartial = false ∨ q.start = none ∨ q.stop = none) :
+    selectTable t q = linearScan t q := by
+  unfold selectTable linearScan
+  apply List.filter_congr
+  intro r _
+  unfold rowMatches whereConds columnConds specMatch
+  simp only [List.all_append, optCond_spec, windowConds_spec_nonpartial ok q r h]
+
 theorem filter_flatMap {α β} (p : β → Bool) (f : α → List β) (l : List α) :
     (l.flatMap f).filter p = l.flatMap (fun a => (f a).filter p) := by
   induction l with
